@@ -17,7 +17,7 @@ use crate::by_sid;
 use crate::comps::*;
 use crate::world_exec::{ret, Out, St};
 use specs::changeset::ChangeSet;
-use specs::hibitset::{AtomicBitSet, BitSetAll, BitSetLike, BitSetNot, BitSetOr};
+use specs::hibitset::{AtomicBitSet, BitSetAll, BitSetAnd, BitSetLike, BitSetNot, BitSetOr, BitSetXor};
 #[nougat::gat(Type)]
 use specs::join::LendJoin;
 use specs::join::{Join, LendJoinType, MaybeJoin, ParJoin, RepeatableLendGet};
@@ -62,6 +62,9 @@ pub enum DynMask<'a> {
     Or(BitSetOr<&'a BitSet, &'a AtomicBitSet>),
     All(BitSetAll),
     Owned(BitSet),
+    And2(BitSetAnd<&'a BitSet, &'a BitSet>),
+    Or2(BitSetOr<&'a BitSet, &'a BitSet>),
+    Xor2(BitSetXor<&'a BitSet, &'a BitSet>),
 }
 
 macro_rules! mask_delegate {
@@ -72,6 +75,9 @@ macro_rules! mask_delegate {
             DynMask::Or(b) => b.$m($($a),*),
             DynMask::All(b) => b.$m($($a),*),
             DynMask::Owned(b) => b.$m($($a),*),
+            DynMask::And2(b) => b.$m($($a),*),
+            DynMask::Or2(b) => b.$m($($a),*),
+            DynMask::Xor2(b) => b.$m($($a),*),
         }
     };
 }
@@ -123,6 +129,21 @@ impl<'a> From<BitSetAll> for DynMask<'a> {
 impl<'a> From<BitSet> for DynMask<'a> {
     fn from(b: BitSet) -> Self {
         DynMask::Owned(b)
+    }
+}
+impl<'a> From<BitSetAnd<&'a BitSet, &'a BitSet>> for DynMask<'a> {
+    fn from(b: BitSetAnd<&'a BitSet, &'a BitSet>) -> Self {
+        DynMask::And2(b)
+    }
+}
+impl<'a> From<BitSetOr<&'a BitSet, &'a BitSet>> for DynMask<'a> {
+    fn from(b: BitSetOr<&'a BitSet, &'a BitSet>) -> Self {
+        DynMask::Or2(b)
+    }
+}
+impl<'a> From<BitSetXor<&'a BitSet, &'a BitSet>> for DynMask<'a> {
+    fn from(b: BitSetXor<&'a BitSet, &'a BitSet>) -> Self {
+        DynMask::Xor2(b)
     }
 }
 
@@ -537,6 +558,8 @@ enum Mem {
     Restr { sid: i64, mode: i64, selmod: i64, selrem: i64, delta: i64, others: Vec<Entity> },
     Cs { cs: usize, mode: i64, delta: i64 },
     Drain(i64),
+    /// `&a & &b`, `&a | &b`, `&a ^ &b`, `!&a` of two explicit bit sets (op 0..3)
+    BitOp(i64, Vec<u32>, Vec<u32>),
 }
 
 #[derive(Clone, Copy, PartialEq, Eq, Debug)]
@@ -628,6 +651,28 @@ fn parse_member(p: &[i64], pos: &mut usize, hs: &[Entity], depth: usize) -> Opti
             Mem::Cs { cs: cs as usize, mode, delta }
         }
         8 => Mem::Drain(sid_ok(take1(p, pos)?)?),
+        9 => {
+            let op = take1(p, pos)?;
+            if !(0..=3).contains(&op) {
+                return None;
+            }
+            let mut sets: [Vec<u32>; 2] = [Vec::new(), Vec::new()];
+            for k in 0..2 {
+                let n = take1(p, pos)?;
+                if n < 0 {
+                    return None;
+                }
+                for _ in 0..n {
+                    let x = take1(p, pos)?;
+                    if !(0..(1 << 24)).contains(&x) {
+                        return None;
+                    }
+                    sets[k].push(x as u32);
+                }
+            }
+            let [a, b] = sets;
+            Mem::BitOp(op, a, b)
+        }
         _ => return None,
     })
 }
@@ -659,6 +704,10 @@ fn plan_member(m: &Mem, fl: Flavour, plan: &mut Plan) -> bool {
         Mem::Ents => true,
         Mem::Bits(_) => {
             plan.nbits += 1;
+            true
+        }
+        Mem::BitOp(..) => {
+            plan.nbits += 2;
             true
         }
         Mem::Maybe(inner) => plan_member(inner, fl, plan),
@@ -985,6 +1034,29 @@ macro_rules! def_build {
                         vec![3]
                     })
                 }
+                Mem::BitOp(op, _, _) => {
+                    let a: &'h BitSet = &cx.bitsets[cx.next_bits];
+                    let b: &'h BitSet = &cx.bitsets[cx.next_bits + 1];
+                    cx.next_bits += 2;
+                    match *op {
+                        0 => erase!($fl, BitSetAnd(a, b), |i, it| {
+                            assert_eq!(it, i, "bit set join yielded another index");
+                            vec![3]
+                        }),
+                        1 => erase!($fl, BitSetOr(a, b), |i, it| {
+                            assert_eq!(it, i, "bit set join yielded another index");
+                            vec![3]
+                        }),
+                        2 => erase!($fl, BitSetXor(a, b), |i, it| {
+                            assert_eq!(it, i, "bit set join yielded another index");
+                            vec![3]
+                        }),
+                        _ => erase!($fl, BitSetNot(a), |i, it| {
+                            assert_eq!(it, i, "bit set join yielded another index");
+                            vec![3]
+                        }),
+                    }
+                }
                 Mem::Anti(sid) => with_ref!(cx.refs, *sid, |r| {
                     let st = r.read();
                     erase!($fl, !st, |i, it| vec![3])
@@ -1271,6 +1343,15 @@ pub fn op_join(world: &mut World, xs: &mut St, p: &[i64]) -> Out {
                     b.add(x);
                 }
                 out.push(b);
+            }
+            Mem::BitOp(_, xa, xb) => {
+                for xs in [xa, xb] {
+                    let mut b = BitSet::new();
+                    for &x in xs {
+                        b.add(x);
+                    }
+                    out.push(b);
+                }
             }
             Mem::Maybe(inner) => collect_bits(inner, out),
             _ => {}
